@@ -1,9 +1,10 @@
 #!/bin/bash
 # Extract the Coq models to OCaml and build the driver. Run after `make` in coq/.
 set -e
-cd /verif/ocaml
+R=${VERIF_ROOT:-/verif}
+cd $R/ocaml
 rm -f model.ml model.mli
 timeout 600 coqc -Q ../coq V ../coq/Extract/Extract.v > extract.log 2>&1 || { cat extract.log; exit 1; }
-mkdir -p /verif/bin
-timeout 900 ocamlfind ocamlopt -w -a -package str model.mli model.ml driver.ml main.ml -o /verif/bin/driver
+mkdir -p $R/bin
+timeout 900 ocamlfind ocamlopt -w -a -package str model.mli model.ml driver.ml main.ml -o $R/bin/driver
 rm -f *.cmi *.cmx *.o
